@@ -85,6 +85,7 @@ class Env:
         self.current_target = None
         self.touched = {}
         self.trusted = []           # human readable list of assumed contracts
+        self.exc_types = {}         # name -> exception class, for variables holding an exception object
         self.yield_specs = {}       # generator qualname -> spec(elem, index, <locals>) checked at every yield
         self.ref_attr_hooks = {}    # (ref class, attr) -> fn(interp, ref) -> value
         self.ref_methods = {}       # (ref class, method) -> real function interpreted with self = the ref
